@@ -295,6 +295,79 @@ func init() {
 				out.Violate("C15|fail-closed-multi", fmt.Sprintf("a bad file among several: exit %d and %d output lines", r.code, strings.Count(r.stdout, "\n")), nil, nil, nil)
 			}
 		}
+		// -config together with every kind of selection flag, on objects whose verdict the configuration changes: the CLI
+		// prints what the library computes with the same configuration and the same selection
+		{
+			cfgText := "[e_rsa_fermat_factorization]\nRounds = 0\n[e_subj_contains_html_entities]\nSkip = true\n[e_subj_orgunit_in_ca_cert]\nCrossCert = true\n[e_crl_next_update_invalid]\nSubscriberCRL = false\n"
+			cfgPath := filepath.Join(tmp, "cfg.toml")
+			os.WriteFile(cfgPath, []byte(cfgText), 0o600)
+			cfg, cerr := lint.NewConfigFromString(cfgText)
+			type obj struct {
+				file string
+				pem  []byte
+				crl  *x509.RevocationList
+				cert *x509.Certificate
+			}
+			var objs []obj
+			for _, cc := range corpus.Certs {
+				if strings.HasPrefix(cc.File, "html_entity_ko") || strings.HasPrefix(cc.File, "orgunit_in_ca_ko") {
+					objs = append(objs, obj{cc.File, pem.EncodeToMemory(&pem.Block{Type: "CERTIFICATE", Bytes: cc.DER}), nil, cc.Cert})
+				}
+			}
+			for _, cc := range corpus.CRLs {
+				if strings.HasPrefix(cc.File, "crl_nextupdate_") {
+					objs = append(objs, obj{cc.File, pem.EncodeToMemory(&pem.Block{Type: "X509 CRL", Bytes: cc.DER}), cc.CRL, nil})
+				}
+			}
+			if tier() != "thorough" && len(objs) > 8 {
+				var keep []obj
+				for i, o := range objs {
+					if i%(len(objs)/8+1) == 0 || strings.Contains(o.file, "sub0") {
+						keep = append(keep, o)
+					}
+				}
+				objs = keep
+			}
+			cfgSels := []selection{
+				{nil, lint.FilterOptions{}},
+				{[]string{"-includeSources", "CABF_BR,Community"}, lint.FilterOptions{IncludeSources: lint.SourceList{lint.CABFBaselineRequirements, lint.Community}}},
+				{[]string{"-excludeSources", "Mozilla"}, lint.FilterOptions{ExcludeSources: lint.SourceList{lint.MozillaRootStorePolicy}}},
+				{[]string{"-nameFilter", "^e_(crl|subj)"}, lint.FilterOptions{NameFilter: regexp.MustCompile("^e_(crl|subj)")}},
+				{[]string{"-includeNames", "e_crl_next_update_invalid,e_subj_contains_html_entities,e_subj_orgunit_in_ca_cert"}, lint.FilterOptions{IncludeNames: []string{"e_crl_next_update_invalid", "e_subj_contains_html_entities", "e_subj_orgunit_in_ca_cert"}}},
+				{[]string{"-excludeNames", names[5]}, lint.FilterOptions{ExcludeNames: []string{names[5]}}},
+			}
+			if cerr == nil {
+				for oi, o := range objs {
+					for si, sel := range cfgSels {
+						if tier() != "thorough" && (oi+si)%2 == 1 {
+							continue
+						}
+						pth := filepath.Join(tmp, "cfgobj.pem")
+						os.WriteFile(pth, o.pem, 0o600)
+						r := runCLI(bin, append(append([]string{"-config", cfgPath}, sel.flags...), pth), nil)
+						invocations++
+						g.SetConfiguration(cfg)
+						reg := lint.Registry(g)
+						if !sel.opts.Empty() {
+							if fr, e := g.Filter(sel.opts); e == nil {
+								reg = fr
+							}
+						}
+						var want string
+						if o.crl != nil {
+							want = libJSON(zlint.LintRevocationListEx(o.crl, reg))
+						} else {
+							want = libJSON(zlint.LintCertificateEx(o.cert, reg))
+						}
+						g.SetConfiguration(lint.NewEmptyConfig())
+						if ok, why := equalResults(strings.TrimSuffix(r.stdout, "\n"), want, map[string]bool{}); r.code != 0 || !ok {
+							out.Violate("C15|config-with-selection", fmt.Sprintf("CLI with -config and %v on %s (exit %d) differs from the library under the same configuration and selection: %s", sel.flags, o.file, r.code, why),
+								map[string]interface{}{"file": o.file, "flags": sel.flags, "config": cfgText}, nil, nil)
+						}
+					}
+				}
+			}
+		}
 		// several files per invocation, mixed suffixes and encodings: every file is decoded as it would be alone under
 		// the same -format (the format is a function of the flag and of that file's own suffix), output lines appear in
 		// order, and the first failing file ends the run with a non-zero exit
